@@ -16,7 +16,7 @@ Definition refmap_ops_reviewed : list (string * rmop) := [
   ("OpenAPI3Importer.loadTypeSchema", RSet "schema.Items.Ref" "false" false);
   ("OpenAPI3Importer.loadTypeSchema", RDeferDone "schema.Items.Ref");
   ("OpenAPI3Importer.loadTypeSchema", RSet "subschema.Ref" "false" false);
-  ("OpenAPI3Importer.loadTypeSchema", RDeferDone "subschema.Ref");
+  ("OpenAPI3Importer.loadTypeSchema", RDoneNow "subschema.Ref");
   ("OpenAPI3Importer.isCircular", RNilTest "==");
   ("OpenAPI3Importer.isCircular", RGet "ref.Ref")].
 Definition rec_skeleton_reviewed : list (string * list string) := [
@@ -33,7 +33,7 @@ Definition rec_skeleton_reviewed : list (string * list string) := [
      "    if schema.Items == nil {";
      "      return nil, fmt.Errorf(""array type %s has no items"", name)";
      "    }";
-     "    if childName := o.typeNameFromSchemaRef(schema.Items); childName == OpenAPI_OBJECT {";
+     "    if childName := o.typeNameFromSchemaRef(schema.Items); childName == OpenAPI_OBJECT || innerArray {";
      "      defer o.pushName(""obj"")()";
      "      if o.isCircular(schema.Items) {";
      "        return nil, errCircularType(o.nameStack)";
@@ -58,8 +58,8 @@ Definition rec_skeleton_reviewed : list (string * list string) := [
      "      if subschema.Ref != """" {";
      "        o.refMap[subschema.Ref] = false";
      "      }";
-     "      defer setDefined(subschema.Ref)";
      "      subType, err := o.loadTypeSchema("""", subschema.Value)";
+     "      setDefined(subschema.Ref)";
      "    }";
      "    for range schema.Properties {";
      "      f, err := o.buildField(fname, prop)";
@@ -75,6 +75,12 @@ Definition rec_skeleton_reviewed : list (string * list string) := [
      "if isArray && prop.Value.Items.Ref != """" {";
      "  f.Type = &Array{Items: nameOnlyType(o.typeNameFromSchemaRef(prop.Value.Items))}";
      "  return f, nil";
+     "}";
+     "if isArray && typeName != OpenAPI_OBJECT && prop.Value.Items.Value.Type.Is(openapi3.TypeArray) {";
+     "  ns := o.nameStack";
+     "  o.nameStack = nil";
+     "  defer func() { o.nameStack = ns }()";
+     "  t, err := o.loadTypeSchema(strings.Join(ns, ""_""), prop.Value.Items.Value)";
      "}";
      "switch typeName {";
      "  case OpenAPI_OBJECT {";
@@ -108,6 +114,9 @@ Definition rec_skeleton_reviewed : list (string * list string) := [
      "name := o.typeNameFromSchemaRef(ref)";
      "if name == OpenAPI_OBJECT {";
      "  t = nameOnlyType(strings.Join(o.nameStack, ""_""))";
+     "}";
+     "if _, ok := t.(*Array); !ok && ref.Ref == """" && ref.Value.Type.Is(openapi3.TypeArray) {";
+     "  return &Array{Items: t}";
      "}"]);
   ("loadSchemaTypes", [
      "for range xsdToSyslMappings {";
@@ -166,6 +175,8 @@ Definition rec_skeleton_reviewed : list (string * list string) := [
   ("makeSimpleType", [
      "item := &Alias{ baseType: baseType{name: from.Name.Local}, Target: makeType(from.Name, from.Base, knownTypes, logger), }"]);
   ("getAllElements", [
+     "return getAllElementsBelow(current, map[*xsd.ComplexType]bool{})"]);
+  ("getAllElementsBelow", [
      "if current == nil {";
      "  return nil";
      "}";
@@ -174,7 +185,11 @@ Definition rec_skeleton_reviewed : list (string * list string) := [
      "    return concreteCurrent.Elements";
      "  }";
      "  if concreteParent, pok := parent.(*xsd.ComplexType); pok {";
-     "    inherited := getAllElements(concreteParent)";
+     "    onPath[concreteCurrent] = true";
+     "    if onPath[concreteParent] {";
+     "      return concreteCurrent.Elements";
+     "    }";
+     "    inherited := getAllElementsBelow(concreteParent, onPath)";
      "  }";
      "}"])].
 
